@@ -386,6 +386,8 @@ mod cdn {
                     let key = hex::decode(&hex_key).expect("hex");
                     let start = Instant::now();
                     let fut = std::panic::AssertUnwindSafe(client.download(&endpoint, ContentType::Data, &key));
+                    // patience_s stays below reqwest's 45 s request timeout of HttpClient: a stalled machine can
+                    // then never turn into a client-side timeout error that would look like an extra attempt
                     let r = tokio::time::timeout(Duration::from_secs(patience_s), futures::FutureExt::catch_unwind(fut)).await;
                     let res = match r {
                         // not back after `patience_s` of real time: recorded as still waiting
@@ -477,7 +479,7 @@ fn main() {
     let mut out = Out::from_arg(arg(&args, "--out").as_ref());
     if let Some(p) = arg(&args, "--cdn") {
         let programs = read_programs(&p);
-        let (n, hangs) = cdn::run(programs, &mut out, arg_u64(&args, "--par", 32) as usize, arg_u64(&args, "--patience", 60));
+        let (n, hangs) = cdn::run(programs, &mut out, arg_u64(&args, "--par", 32) as usize, arg_u64(&args, "--patience", 40));
         out.flush();
         eprintln!("{}", json!({"programs": n, "events": out.events, "hangs": hangs, "skipped": 0}));
         return;
@@ -498,7 +500,9 @@ fn main() {
             programs.push(prog);
         }
     }
-    let st = run_with_watchdog(programs, &mut out, Duration::from_secs(20), run_program);
+    // programs take microseconds (virtual clock) or a few milliseconds (env: one child process): a minute
+    // without any event is a hang of the code under test, not a slow machine
+    let st = run_with_watchdog(programs, &mut out, Duration::from_secs(60), run_program);
     out.flush();
     eprintln!("{}", json!({"programs": st.programs, "events": out.events, "hangs": st.hangs, "skipped": st.skipped}));
     if st.skipped > 0 {
